@@ -320,6 +320,23 @@ func checkC07(c C07Case, rec *obs.Recorder) *obs.Violation {
 		_ = i
 	}
 
+	// content the format cannot carry (an empty set has no element type to write) is refused by
+	// Build; it is never written as something else
+	{
+		bad := m.Block{Facts: append(append([]m.Pred{}, c.Spec.Blocks[0].Facts...), m.P("c07_unencodable", m.Term{K: m.KSet}, m.Int(int64(c.GatePos))))}
+		if c.GatePos%2 == 1 {
+			bad.Facts[len(bad.Facts)-1] = m.P("c07_unencodable", m.Int(int64(c.GatePos)), m.Term{K: m.KSet})
+		}
+		_, bpriv := bridge.RootKey(c.Spec.RootSeed)
+		if tb, err := bridge.BuildAuthority(bpriv, bridge.NewDetRand(c.Spec.RngKey+77), bad, nil); err == nil {
+			bser, _ := tb.Serialize()
+			_, bgot, derr := decodeContent(bser)
+			if derr != nil || len(bgot) != 1 || bgot[0].ContentKey() != bad.Postfix().ContentKey() {
+				return obs.ViolK("unencodable", "Build accepted the authority content {%s} (an empty set), but the bytes do not carry it (independent decoding: %v)", bad.Text(), derr)
+			}
+		}
+	}
+
 	// (3) version gate, on a token signed by this package's own writer
 	enc := encodeBlocksVersion(c.Spec.Blocks, c.GatePos%len(c.Spec.Blocks), c.Gate)
 	_, priv := bridge.RootKey(c.Spec.RootSeed)
@@ -474,7 +491,7 @@ func drawC07(t *rapid.T) C07Case {
 func TestC07(t *testing.T) {
 	rec := obs.New("C07")
 	defer rec.Flush(true)
-	rec.SetExtra("rule", "rapid histories build / append x(0-3) / seal? / serialize / unmarshal over blocks with every term type (64-bit boundary integers, unicode and quoted strings, dates, byte arrays, booleans, sets, half of them as the caller wrote them: unsorted, possibly repeating an element), expressions of depth <= 4 over all operators with explicit parentheses, all 28 default symbols and fresh symbols shared across blocks, contexts, root key ids. Oracle (1): the independent reader + the specification's symbol rules give back, block for block, the supplied content, version 3, tables of new symbols only; (2) Unmarshal: same String / RevocationIds / RootKeyID / BlockCount / context / Checks() shape / GetBlockID of every supplied fact (first block holding it), same outcome on a panel of 3 generated authorizers, byte-identical re-serialization, also after the buffer handed to Unmarshal has been overwritten; two tokens appended to one drawn stage leave every earlier token's bytes unchanged and carry their own block; an Unmarshaler value that has decoded another token decodes this one exactly like a fresh one and leaves the caller's base table alone; (3) a token written and signed by the independent writer is accepted when all blocks declare version 3 and rejected when one declares absent/0/1/2/4/2^32-1. Non-trivial = a fresh symbol, an expression or a set, and two blocks (or a symbol shared between blocks); distinct by token content.")
+	rec.SetExtra("rule", "rapid histories build / append x(0-3) / seal? / serialize / unmarshal over blocks with every term type (64-bit boundary integers, unicode and quoted strings, dates, byte arrays, booleans, sets, half of them as the caller wrote them: unsorted, possibly repeating an element), expressions of depth <= 4 over all operators with explicit parentheses, all 28 default symbols and fresh symbols shared across blocks, contexts, root key ids. Oracle (1): the independent reader + the specification's symbol rules give back, block for block, the supplied content, version 3, tables of new symbols only; (2) Unmarshal: same String / RevocationIds / RootKeyID / BlockCount / context / Checks() shape / GetBlockID of every supplied fact (first block holding it), same outcome on a panel of 3 generated authorizers, byte-identical re-serialization, also after the buffer handed to Unmarshal has been overwritten; two tokens appended to one drawn stage leave every earlier token's bytes unchanged and carry their own block; an Unmarshaler value that has decoded another token decodes this one exactly like a fresh one and leaves the caller's base table alone; content with an empty set (first or last position of a fact) is refused by Build or carried by the bytes; (3) a token written and signed by the independent writer is accepted when all blocks declare version 3 and rejected when one declares absent/0/1/2/4/2^32-1. Non-trivial = a fresh symbol, an expression or a set, and two blocks (or a symbol shared between blocks); distinct by token content.")
 	rec.SetExtra("assumptions", []string{"facts and rules are compared as multisets per block, checks / queries / bodies / operator sequences in order", "the independent codec is typed in from the published schema"})
 	_ = strings.Join
 	harness.RunWith(t, harness.Spec[C07Case]{ID: "C07", Draw: drawC07, Check: checkC07}, rec)
